@@ -738,4 +738,7 @@ def run(chk):
     import rules.C13 as c13
     c13.run(core.Only(chk, {"C13.ijk"}))
 
+    from verif import narrow
+    narrow.run_offwidth(chk, "C10")
+
     chk.assumptions += ["the positional seek arithmetic of ESmry::loadData / ExtESmry is not analysed (runtime quantities)"]
